@@ -225,6 +225,16 @@ func (c *regexpSimplifyChecker) walk(e syntax.Expr) {
 		}
 
 	case syntax.OpQuestion, syntax.OpNonGreedy:
+		if arg := e.Args[0]; e.Op == syntax.OpNonGreedy && arg.Op == syntax.OpRepeat {
+			// x{1}? is a lazy x{1}; without its repeat the `?` would make x optional
+			// (and x{0}? would hand the `?` over to the preceding expression).
+			if rep := arg.Args[1].Value; rep == "{0}" || rep == "{1}" {
+				c.walk(arg.Args[0])
+				out.WriteString(rep)
+				out.WriteString("?")
+				break
+			}
+		}
 		c.walk(e.Args[0])
 		out.WriteString("?")
 	case syntax.OpStar:
